@@ -122,6 +122,66 @@ pub fn outside_preconditions(rng: &mut Rng, count: usize) -> Vec<Tree> {
     out
 }
 
+/// every wrapper constructor over every family of inner transform with "awkward" scratch needs (in-place scratch larger
+/// than its length, non-zero out-of-place scratch, scratch-free, naive), within the documented preconditions
+pub fn stress_pairs() -> Vec<Tree> {
+    let b = |t: Tree| Box::new(t);
+    // inner families: (tree, note)
+    let mut inners: Vec<Tree> = vec![
+        Tree::Bfly(4), Tree::Bfly(6), Tree::Bfly(16), Tree::Dft(4), Tree::Dft(6), Tree::Dft(10),
+        Tree::Bluesteins(2, b(Tree::Bfly(4))),                       // len 2, in-place scratch 4
+        Tree::Bluesteins(4, b(Tree::Bfly(8))),                       // len 4, scratch 8
+        Tree::Bluesteins(6, b(Tree::Bfly(12))),                      // len 6
+        Tree::Bluesteins(10, b(Tree::Dft(20))),                      // len 10, scratch 40
+        Tree::Bluesteins(12, b(Tree::Radix4(1, b(Tree::Bfly(6))))),  // len 12
+        Tree::Bluesteins(16, b(Tree::Bfly(32))),                     // len 16
+        Tree::Raders(b(Tree::Bfly(4))),                              // len 5
+        Tree::Raders(b(Tree::Dft(6))),                               // len 7, inner needs scratch 6
+        Tree::Raders(b(Tree::Bluesteins(4, b(Tree::Bfly(8))))),      // len 5, inner needs more than its length
+        Tree::Raders(b(Tree::Bluesteins(6, b(Tree::Bfly(12))))),     // len 7
+        Tree::Raders(b(Tree::Bluesteins(10, b(Tree::Dft(20))))),     // len 11
+        Tree::Raders(b(Tree::Bluesteins(12, b(Tree::Bfly(24))))),    // len 13
+        Tree::Raders(b(Tree::Bluesteins(16, b(Tree::Bfly(32))))),    // len 17
+        Tree::MixedRadix(b(Tree::Bluesteins(2, b(Tree::Bfly(4)))), b(Tree::Bfly(3))),
+        Tree::MixedRadix(b(Tree::Bfly(3)), b(Tree::Bluesteins(4, b(Tree::Bfly(8))))),
+        Tree::GoodThomas(b(Tree::Bluesteins(4, b(Tree::Bfly(8)))), b(Tree::Bfly(3))),
+        Tree::GoodThomas(b(Tree::Bfly(5)), b(Tree::Bluesteins(6, b(Tree::Bfly(12))))),
+        Tree::Radix4(1, b(Tree::Dft(3))),
+        Tree::Radix3(1, b(Tree::Bluesteins(2, b(Tree::Bfly(4))))),
+        Tree::RadixN(vec![2, 3], b(Tree::Bluesteins(2, b(Tree::Bfly(4))))),
+    ];
+    let mut out = vec![];
+    for i in inners.clone() {
+        let m = i.len();
+        // Bluestein over it, for every admissible outer length class
+        for n in [1usize, 2, (m + 1) / 2] {
+            if n >= 1 && 2 * n - 1 <= m {
+                out.push(Tree::Bluesteins(n, b(i.clone())));
+            }
+        }
+        if is_prime_u64(m as u64 + 1) {
+            out.push(Tree::Raders(b(i.clone())));
+        }
+        out.push(Tree::Radix4(1, b(i.clone())));
+        out.push(Tree::Radix4(0, b(i.clone())));
+        out.push(Tree::Radix3(1, b(i.clone())));
+        out.push(Tree::RadixN(vec![2], b(i.clone())));
+        out.push(Tree::RadixN(vec![5, 3], b(i.clone())));
+        for other in [Tree::Bfly(3), Tree::Bfly(8), Tree::Dft(5), Tree::Bluesteins(2, b(Tree::Bfly(4)))] {
+            out.push(Tree::MixedRadix(b(i.clone()), b(other.clone())));
+            out.push(Tree::MixedRadix(b(other.clone()), b(i.clone())));
+            if gcd(m, other.len()) == 1 {
+                out.push(Tree::GoodThomas(b(i.clone()), b(other.clone())));
+                out.push(Tree::GoodThomas(b(other.clone()), b(i.clone())));
+            }
+        }
+    }
+    inners.append(&mut out);
+    inners.sort_by_key(|t| t.text());
+    inners.dedup();
+    inners
+}
+
 pub fn tree_set(seed: u64, n_d1: usize, n_d2: usize, n_deep: usize, n_bad: usize) -> Vec<Tree> {
     let mut rng = Rng::new(seed);
     let lv = leaves();
@@ -144,6 +204,7 @@ pub fn tree_set(seed: u64, n_d1: usize, n_d2: usize, n_deep: usize, n_bad: usize
     pool3.extend(d3.iter().take(30).cloned());
     out.extend(d3);
     out.extend(depth1(&pool3, 20000, &mut rng, Some(n_deep / 2)));
+    out.extend(stress_pairs());
     out.extend(outside_preconditions(&mut rng, n_bad));
     out
 }
